@@ -73,3 +73,72 @@ package main
 //@              len((*c.addrMap)[k]) == old(len((*c.addrMap)[k])) + 1 && (*c.addrMap)[k][len((*c.addrMap)[k])-1] == ctDst(s)
 //@              && (forall i int :: 0 <= i && i < old(len((*c.addrMap)[k])) ==> (*c.addrMap)[k][i] == old((*c.addrMap)[k][i])))
 //@   ensures [other-sources-untouched] c.addrMap != nil && old(*c.addrMap) != nil ==> (forall k string :: k != ctSrc(s) || err != nil ==> (*c.addrMap)[k] == old((*c.addrMap)[k]))
+
+// ---------------------------------------------------------------------------------- C13 C08
+// The encode and report commands: every record the (round-robin) decoder delivers is handed on
+// exactly once, in order, and exactly as decoded; the loop ends only at the decoder's end of input
+// (or on an interrupt signal / an error).
+
+//@ func file
+//@   property C13
+//@   returns (f, err)
+//@   assume [standard-streams-open-and-unread] os.Stdin != nil && os.Stdout != nil && live(os.Stdin) && rsrc(os.Stdin) == ref(os.Stdin) && consumed(os.Stdin) >= 0
+//@                                               && live(os.Stdout) && rsrc(os.Stdout) == ref(os.Stdout) && consumed(os.Stdout) >= 0
+//@   ensures [file-or-error] err == nil ==> f != nil && live(f) && rsrc(f) == ref(f) && consumed(f) >= 0
+
+// decoder: one auto-detected decoder per file, in the order of the arguments, behind one round-robin
+// decoder. The round-robin decoder is used through the Decoder type contract from here on; that its
+// own cursor starts at 0 over a finite record sequence is the (assumed, see DESIGN) abstraction of
+// NewRoundRobinDecoder$1's proved contract.
+//@ func decoder
+//@   property C13
+//@   returns (dec, closer, err)
+//@   requires [at-least-one-file] len(files) >= 1
+//@   before call NewRoundRobinDecoder: assert [one-decoder-per-file] len(arg0) == len(files) && (forall k int :: 0 <= k && k < len(arg0) ==> arg0[k] != nil)
+//@   at call NewRoundRobinDecoder: assume [round-robin-abstraction] len(arg0) != 1 ==> dpos(result) == 0 && dlen(result) >= 0
+//@   ensures [decoder-or-error] err == nil ==> dec != nil && dpos(dec) == 0 && dlen(dec) >= 0
+//@   loop 1
+//@     invariant -1 <= rangeindex && rangeindex < len(files) && len(decs) == rangeindex + 1 && len(closer) == rangeindex + 1
+//@     invariant forall k int :: 0 <= k && k < len(decs) ==> decs[k] != nil && dpos(decs[k]) == 0 && dlen(decs[k]) >= 0
+//@     invariant fresh(decs) && fresh(closer)
+
+//@ func encode
+//@   property C13 C08
+//@   returns (err)
+//@   requires [at-least-one-file] len(files) >= 1
+//@   ghost n int = 0
+//@   ghost interrupted bool = false
+//@   ghost d ref = 0
+//@   at call decoder: ghost d = ref(result0)
+//@   at recv sigch: ghost interrupted = true
+//@   at call Decode: assert [each-record-once-in-order] result == nil ==> rec(arg1) == ditem(d, n)
+//@   at call Encode: assert [encodes-the-record-just-decoded] rec(arg1) == ditem(d, n) ; ghost n = n + 1
+//@   ensures [all-records-encoded-unless-interrupted] err == nil && !interrupted && d != 0 ==> n == dlen(d)
+//@   loop 1
+//@     invariant d != 0 && d == ref(dec) && 0 <= n && n == dpos(d) && n <= dlen(d) && !interrupted
+
+//@ func clearScreen
+//@   trusted
+
+//@ func clear
+//@   inline
+//@ func writeReport
+//@   inline
+
+//@ func report
+//@   property C13
+//@   returns (err)
+//@   pragma frame off
+//@   pragma ifacecalls abstract
+//@   requires [at-least-one-file] len(files) >= 1
+//@   ghost n int = 0
+//@   ghost interrupted bool = false
+//@   ghost d ref = 0
+//@   at call decoder: ghost d = ref(result0)
+//@   at recv sigch: ghost interrupted = true
+//@   at call Decode: assert [each-record-once-in-order] result == nil ==> rec(arg1) == ditem(d, n)
+//@   at call Add: assert [adds-the-record-just-decoded] rec(arg0) == ditem(d, n) ; ghost n = n + 1
+//@   ensures [all-records-added-unless-interrupted] err == nil && !interrupted && d != 0 ==> n == dlen(d)
+//@   loop 1
+//@     invariant d != 0 && d == ref(dec) && 0 <= n && n == dpos(d) && n <= dlen(d) && !interrupted
+//@     invariant report != nil && rep != nil && out != nil
